@@ -26,6 +26,8 @@ fn same_bytes(a: &[u8], b: &[u8]) -> bool {
 fn clause_utf8<const N: usize, const OUT: usize>() {
     let src: [u8; N] = kani::any();
     let mut dst = String::with_capacity(32);
+    // whatever an earlier line left in the shared decode buffer must not matter
+    dst.push_str("xy");
     let got = Encoding::Utf8.decode(&src, &mut dst);
     let mut want = [0u8; OUT];
     let n = ru::lossy::<OUT>(&src, &mut want);
@@ -53,6 +55,8 @@ fn clause_utf16<const K: usize, const BYTES: usize, const OUT: usize>(le: bool, 
         2 * K
     };
     let mut dst = String::with_capacity(32);
+    // whatever an earlier line left in the shared decode buffer must not matter
+    dst.push_str("xy");
     let enc = if le { Encoding::Utf16LE } else { Encoding::Utf16BE };
     let got = enc.decode(&src[..len], &mut dst);
     let mut want = [0u8; OUT];
